@@ -29,10 +29,11 @@ class HarnessError(Exception):
 
 class Claim:
     """lhs (kind) rhs; kind in eq, le, lt, ge, gt, ne; label identifies the obligation"""
-    __slots__ = ("label", "lhs", "rhs", "kind", "tol")
+    __slots__ = ("label", "lhs", "rhs", "kind", "tol", "extra")
 
-    def __init__(self, label, lhs, rhs, kind="eq", tol=None):
+    def __init__(self, label, lhs, rhs, kind="eq", tol=None, extra=()):
         self.label, self.lhs, self.rhs, self.kind, self.tol = label, lhs, rhs, kind, tol
+        self.extra = tuple(extra)  # additional assumptions (z3 Bool) for this claim only
 
 
 def claim_formula(c: Claim):
@@ -281,7 +282,26 @@ def run_harness(h: Harness, seed=0, tier="quick", shard=None):
     ir = IR(f)
     stats["functions"].append(dict(function=f.name(), instructions=ir.n_instr, nodes=len(ir.nodes)))
     validate_translator(h, f, ir, rng, stats)
-    for cell in explore(ir, h.make_ctx, max_cells=h.max_cells):
+    cells_iter = explore(ir, h.make_ctx, max_cells=h.max_cells)
+    while True:
+        try:
+            cell = next(cells_iter)
+        except StopIteration:
+            break
+        except Undefined as e:
+            # an undefined operation with constant operands on a reachable path (e.g. 1/0, inf constant)
+            reachable += 1
+            rp = dict(confirmed=True, note=str(e))
+            try:
+                ctx0, iv0 = h.make_ctx()
+                pt = [[0.37 + 0.1 * k for k in range(len(row))] for row in iv0]
+                o = _casadi_eval(f_real, pt[:f_real.n_in()])
+                rp["casadi_outputs_at_sample"] = o
+                rp["inputs"] = pt
+            except Exception:
+                pass
+            records.append(dict(label="defined:path", status="refuted", harness=h.name, detail=str(e), replay=rp, cell="?"))
+            break
         ctx = cell.ctx
         if not h.cell_filter(cell):
             stats["cells_skipped"] += 1
@@ -325,7 +345,8 @@ def run_harness(h: Harness, seed=0, tier="quick", shard=None):
                 kindc = "raw"
             else:
                 label, fml, kindc = c.label, claim_formula(c), c.kind
-            res = prove(ctx, fml, h.timeout_ms)
+            extra = tuple(getattr(c, "extra", ())) + tuple(getattr(h, "defined_extra", ()) if label.startswith("defined:") else ())
+            res = prove(ctx, fml, h.timeout_ms, extra=extra, with_pc=("auto" if not extra else True))
             rec = dict(label=label, status=res["status"], t=round(res["t"], 4),
                        cell="".join("T" if d else "F" for d in cell.decisions), harness=h.name)
             if res["status"] == "refuted":
